@@ -138,6 +138,15 @@ impl CodeCache {
       translated.len()
     };
 
+    // Code in the switchable bank can remap that bank while it runs. Such a
+    // block watches for the change and hands control back right after the
+    // instruction that caused it.
+    let watch_bank = ip >= 0x4000;
+    if watch_bank {
+      let translated = self.exec_memory.get_memory_area_mut();
+      write_cursor += emitter.encode_bank_watch_reset(&mut translated[write_cursor..]);
+    }
+
     let mut block_ended = false;
     let mut index = ip;
     while !block_ended {
@@ -161,6 +170,9 @@ impl CodeCache {
       let translated = self.exec_memory.get_memory_area_mut();
       let written = emitter.encode_op(next_op, length, &mut translated[write_cursor..]);
       write_cursor += written;
+      if watch_bank && !block_ended {
+        write_cursor += emitter.encode_bank_watch_check(&mut translated[write_cursor..]);
+      }
     }
 
     
